@@ -25,7 +25,52 @@ RULE = ("two drivers under the simulated wall clock. sweep (2/3 of runs): 300 (n
         "0 < T - now <= 61 s; distinct = distinct (now, T, representation) triples")
 
 
+DST_ZONES = ["Europe/Berlin", "America/New_York", "Australia/Lord_Howe", "Australia/Adelaide", "Pacific/Auckland", "America/St_Johns",
+             "Europe/London", "America/Sao_Paulo", "Pacific/Chatham"]
+_TRANS: dict = {}
+
+
+def transitions(zone: str, year: int) -> list:
+    """UTC instants (us) at which the zone's offset changes in that year (hour resolution is enough)."""
+    key = (zone, year)
+    if key not in _TRANS:
+        from datetime import datetime, timedelta, timezone
+        from zoneinfo import ZoneInfo
+        z = ZoneInfo(zone)
+        out = []
+        t = datetime(year, 1, 1, tzinfo=timezone.utc)
+        prev = t.astimezone(z).utcoffset()
+        for _ in range(366 * 48):
+            t += timedelta(minutes=30)
+            off = t.astimezone(z).utcoffset()
+            if off != prev:
+                out.append(int(t.timestamp()) * 1_000_000)
+            prev = off
+        _TRANS[key] = out
+    return _TRANS[key]
+
+
+def gen_dst_case(r: Any) -> dict:
+    """now and T both inside the hours around a DST transition, T given in that zone (zoneinfo or pytz) or with an odd-second offset."""
+    zone = r.choice(DST_ZONES)
+    tr = transitions(zone, r.randint(2016, 2034))
+    base = r.choice(tr) if tr else 1_700_000_000_000_000
+    now = base + r.randint(-2 * 3_600_000_000, 2 * 3_600_000_000)
+    c = r.randint(0, 3)
+    if c == 0:
+        t = now + r.randint(-3_600_000_000, 3_600_000_000)
+    elif c == 1:
+        t = now + r.randint(1, 61_000_000)
+    elif c == 2:
+        t = now - r.randint(0, 3_600_000_000)
+    else:
+        t = now + r.randint(61_000_000, 2 * 3_600_000_000)
+    return {"now_us": now, "t": {"us": t, "repr": r.choice([f"zi:{zone}", f"zi:{zone}", f"pytz:{zone}"])}, "dst": True}
+
+
 def gen_case(r: Any, base: int) -> dict:
+    if r.random() < 0.15:
+        return gen_dst_case(r)
     c = r.randint(0, 7)
     if c == 0:
         now = base - base % 60_000_000 + r.choice([0, 1, 59_999_999, 59_000_000, 999_999, 1_000_000])
@@ -48,7 +93,7 @@ def gen_case(r: Any, base: int) -> dict:
         t = now - r.randint(0, 3_000_000)
     else:
         t = now + r.randint(0, 70_000_000)
-    return {"now_us": now, "t": {"us": t, "repr": r.choice(TIME_REPRS)}}
+    return {"now_us": now, "t": {"us": t, "repr": r.choice(TIME_REPRS + ["fixeds:30", "fixeds:-3599", "fixeds:20700"])}}
 
 
 def gen(rs: int, tier: str, index: int) -> dict:
@@ -125,7 +170,7 @@ def oracle(script: dict, run: Any) -> List[Violation]:
 
 
 def probes(script: dict, run: Any) -> Dict[str, int]:
-    res = {"within_window": 0, "exact_second_remainder": 0, "at_horizon": 0, "past": 0, "aware_zone": 0, "insitu_calls": 0, "now_on_boundary": 0}
+    res = {"within_window": 0, "exact_second_remainder": 0, "at_horizon": 0, "past": 0, "aware_zone": 0, "insitu_calls": 0, "now_on_boundary": 0, "dst_fold_window": 0, "odd_second_offset": 0}
     if script["mode"] == "sweep":
         for c in script["cases"]:
             d = c["t"]["us"] - c["now_us"]
@@ -142,6 +187,10 @@ def probes(script: dict, run: Any) -> Dict[str, int]:
                 res["aware_zone"] = 1
             if c["now_us"] % 60_000_000 in (0, 1, 59_999_999):
                 res["now_on_boundary"] = 1
+            if c["t"]["repr"].startswith("fixeds:"):
+                res["odd_second_offset"] = 1
+            if c.get("dst"):
+                res["dst_fold_window"] = 1
     else:
         res["insitu_calls"] = int(any(t.time is not None for _, t, _ in run.delay_log))
     return res
